@@ -271,8 +271,20 @@ func runC02(c *core.Ctx) {
 			k.total += 5
 		}
 		k.MsgClass = w.Hist%2 == 0 // every message class of the quantifiers (multi-line, tabs, %, non-ASCII ...)
-		k.Init()
-		if w.Hist%4 == 0 {
+		if w.Hist%8 == 4 {
+			// identity split over the two scopes: name only global, e-mail only local
+			w.Goit("init")
+			w.Goit("config", "--global", "user.name", "Global Only Name")
+			w.Goit("config", "user.email", "local-only@example.org")
+		} else if w.Hist%8 == 6 {
+			w.Goit("init")
+			w.Goit("config", "user.name", "Local Only Name")
+			w.Goit("config", "--global", "user.email", "global-only@example.org")
+			w.Goit("config", "user.nick", "n")
+		} else {
+			k.Init()
+		}
+		if w.Hist%4 == 0 && w.Hist%8 != 4 {
 			w.Goit("config", "--global", "user.name", "Global Name")
 			w.Goit("config", "--global", "user.email", "global@example.org")
 		}
